@@ -6,6 +6,9 @@ THEOREMS = ["C16_encode_is_rfc4648", "C16_decode_inverts_encode", "C16_validator
             "C16_accepted_key_fits_buffer", "C16_printed_key_is_accepted"]
 
 
+SRC_THEOREMS = ["SRC_b64_encode", "SRC_b64_valid", "SRC_b64_decode", "SRC_b64_encode_is_rfc4648", "SRC_b64_validator_exact"]
+
+
 def gen_cases(ck):
     r = ck.rng
     big = ck.tier == "thorough"
@@ -107,7 +110,7 @@ def src_norm(c, impl, src):
 
 
 def run(ck):
-    ck.prove("Properties_C16", THEOREMS)
+    ck.prove(["Properties_C16", "Properties_SrcB64"], THEOREMS + SRC_THEOREMS)
     exe = ck.impl_driver()
     cases = gen_cases(ck)
     differential(ck, exe, cases, oracle, corr_exempt=exempt, src=True, src_norm=src_norm)
